@@ -258,7 +258,7 @@ def verify(w, accept):
 @obligation('C20.mnemonic', 'C20', kind='bounded', samples=6,
             fuc=['pytoniq_core.crypto.keys.mnemonic_new', 'pytoniq_core.crypto.keys.mnemonic_is_valid',
                  'pytoniq_core.crypto.keys.mnemonic_to_wallet_key', 'pytoniq_core.crypto.keys.mnemonic_to_private_key'],
-            descr='bounded, native: generated mnemonics have 24 words from the list and are valid; key derivation is deterministic '
+            descr='bounded, native: generated mnemonics (default call, and explicit length 24 with and without a password) have 24 words from the list and are valid; key derivation is deterministic '
                   '(same mnemonic, same key pair; the public key is the Ed25519 public key of the secret key); a mnemonic with a '
                   'changed word is (almost always) invalid and derives a different key')
 def mnemonic(w):
@@ -266,6 +266,13 @@ def mnemonic(w):
     m = K.mnemonic_new()
     w.claim('24 words from the list', len(m) == 24 and all(x in K.words for x in m))
     w.claim('generated mnemonic is valid', K.mnemonic_is_valid(m) is True)
+    # every way of calling the generator for a standard 24-word mnemonic: explicit length, with / without a password
+    pw = w.rng.choice([None, '', 'pw', 'correct horse', ''.join(chr(w.rng.randrange(33, 127)) for _ in range(w.rng.randrange(1, 20)))])
+    w.used['password'] = pw
+    mp = K.mnemonic_new(24, pw)
+    w.claim(f'mnemonic_new(24, password={pw!r}): 24 words from the list', len(mp) == 24 and all(x in K.words for x in mp))
+    w.claim(f'mnemonic_new(24, password={pw!r}): generated mnemonic is valid', K.mnemonic_is_valid(mp) is True)
+    w.claim('derivation with that password is deterministic', K.mnemonic_to_wallet_key(mp, pw) == K.mnemonic_to_wallet_key(list(mp), pw))
     k1, k2 = K.mnemonic_to_wallet_key(m), K.mnemonic_to_wallet_key(list(m))
     w.claim('derivation is deterministic', k1 == k2)
     w.claim('public key matches the secret key', K.private_key_to_public_key(k1[1]) == k1[0] and len(k1[0]) == 32 and len(k1[1]) == 64)
